@@ -76,7 +76,8 @@ def iv(x):
 def script_for(wd, n, ops, rng, FILES=FILES):
     d = os.path.join(wd, "h%d" % n)
     os.makedirs(d, exist_ok=True)
-    L = ["scratch " + d, "clock 1000"]
+    # the library's clock runs at an offset: small values, or values that cross 2^31 / 2^32 seconds during the history
+    L = ["scratch " + d, "clockbase %d" % rng.choice([0, 0, (1 << 31) - 1003, (1 << 32) - 1004, 1 << 33]), "clock 1000"]
     for name, ents in FILES.items():
         p = os.path.join(d, name)
         L.append("w_init 0 %s none default 1024 2 -1 0" % p)
